@@ -40,7 +40,7 @@ def gen_case(rng, big=False):
     for _ in range(rng.randint(1, 9 if not big else 30)):
         hi = max(1, (mb - 1) if (mb > 1 and rng.random() < 0.8) else mb + 2)
         data = _rand_text(rng, rng.randint(0, min(hi, 12 if not big else 40)))
-        fmt = rng.choice(["T", "%%", "t=%Y"]) if use_fmt else None
+        fmt = rng.choice(["T", "%%", "t=%Y", ""]) if use_fmt else None      # "" is a format too (an empty ini value)
         writes.append({"data": data, "fmt": fmt, "pid": rng.choice([1, 42, 31337]),
                        "ts": rng.choice([0, 86400 * 365, 1700000000])})
     return {"mb": mb, "n": n, "k": k, "active0": active0, "backups": backups, "writes": writes,
@@ -218,6 +218,6 @@ def nontrivial(case, obs):
 def stats(cases, impl):
     rolls = sum(1 for c, o in zip(cases, impl) if nontrivial(c, o) and c["writes"][0]["fmt"] is None)
     return {"cases_with_rollover": rolls,
-            "cases_with_time_format": sum(1 for c in cases if c["writes"][0]["fmt"]),
+            "cases_with_time_format": sum(1 for c in cases if c["writes"][0]["fmt"] is not None),
             "cases_with_preexisting_gaps": sum(1 for c in cases if any(b is None for b in c["backups"]) and any(b is not None for b in c["backups"])),
             "max_bytes_histogram": {str(m): sum(1 for c in cases if c["mb"] == m) for m in sorted({c["mb"] for c in cases})[:12]}}
